@@ -825,7 +825,7 @@ class MapEvaluateImpl(MapKernel):
     name = "map_node.cpp:map_evaluate_impl"
     fn_name = "map_evaluate_impl"
     filter = "map_evaluate_impl"
-    property_ids = ("C10", "C14", "C15")
+    property_ids = ("C10", "C14", "C15", "C02")
     title = "map_evaluate_impl: only constructed started children evaluate; a captured failure is written under that child's " \
             "key; every visited child's future deadline is in the schedule heap and the node re-arms at the heap minimum"
     max_paths = 40000
@@ -1012,7 +1012,8 @@ class MapEvaluateImpl(MapKernel):
 
     @property
     def loops(self):
-        return {0: LoopSpec(self.inv_main, self.frame_main), 1: LoopSpec(self.inv_drain, self.frame_drain)}
+        return {0: LoopSpec(self.inv_main, self.frame_main, match="evaluation_slots.size()"),
+                1: LoopSpec(self.inv_drain, self.frame_drain, match="child_schedule_queue")}
 
     def post(self, I, ret):
         ctx = I.ctx
@@ -1023,7 +1024,7 @@ class MapEvaluateImpl(MapKernel):
                    self.gg(ctx, "err_calls") == self.gg(ctx, "throws"), kind="post-normal")
         s = self.slots[qk]
         ctx.oblige("ensures.completed=>every-visited-child's-future-deadline-re-arms-this-node-no-later[C10 self-scheduling children: "
-                   "no wake-up of a key's child is lost]",
+                   "no wake-up of a key's child is lost; C02]",
                    z3.Implies(z3.And(self.view_started, ret), z3.ForAll([qk], z3.Implies(z3.And(
                        qk >= self.start_pos(), qk < self.nslots, z3.Not(self.entry_null[s]), self.has_graph[s], started[s],
                        cnst[s] != MAX_DT, cnst[s] > self.T),
@@ -1448,6 +1449,7 @@ class PrepareMapEvaluationSlots(SlotKernel):
     name = "map_node.cpp:prepare_map_evaluation_slots"
     fn_name = "prepare_map_evaluation_slots"
     filter = "prepare_map_evaluation_slots"
+    property_ids = ("C10", "C02")
     title = "prepare_map_evaluation_slots: the candidate bitmap covers every slot, due schedule entries become candidates and " \
             "leave the heap, PW is preserved, and without an outer input event every child is a candidate"
     max_paths = 60000
@@ -1639,7 +1641,7 @@ class PrepareMapEvaluationSlots(SlotKernel):
         pres, when = self.gg(ctx, "h_present"), self.gg(ctx, "h_when")
         ctx.oblige("ensures.PW-preserved", self.PW(ctx), kind="post-normal")
         ctx.oblige("ensures.no-due-entry-left-in-the-heap;every-due-non-stale-entry's-slot-is-a-candidate[C10 a child due by its own "
-                   "schedule is not starved]", z3.And(z3.ForAll([qe], z3.Implies(pres[qe], when[qe] > self.T)), self.popped_ok(ctx)),
+                   "schedule is not starved; C02 work inside a nested child is honoured at exactly its time]", z3.And(z3.ForAll([qe], z3.Implies(pres[qe], when[qe] > self.T)), self.popped_ok(ctx)),
                    kind="post-normal")
         ctx.oblige("ensures.membership-changed-keys-are-candidates-whether-or-not-the-key-set-itself-ticked[C10 a key that joined or "
                    "left one of the keyed inputs is re-bound and evaluated in that cycle]",
